@@ -104,10 +104,22 @@ func Open(dir string, opts ...walOpt) (*WAL, error) {
 		return nil, err
 	}
 
+	// If Open fails, release everything it opened so far: a later Open of the
+	// same directory must not find the meta DB still locked by this attempt, or
+	// leak segment file handles.
+	var opened []io.Closer
+	fail := func(err error) (*WAL, error) {
+		for _, c := range opened {
+			c.Close()
+		}
+		w.metaDB.Close()
+		return nil, err
+	}
+
 	// Load or create metaDB
 	persisted, err := w.metaDB.Load(w.dir)
 	if err != nil {
-		return nil, err
+		return fail(err)
 	}
 
 	newState := state{
@@ -119,7 +131,7 @@ func Open(dir string, opts ...walOpt) (*WAL, error) {
 	// unused ones as we go.
 	toDelete, err := w.sf.List()
 	if err != nil {
-		return nil, err
+		return fail(err)
 	}
 
 	// Build the state
@@ -129,7 +141,7 @@ func Open(dir string, opts ...walOpt) (*WAL, error) {
 		// Verify we can decode the entries.
 		// TODO: support multiple decoders to allow rotating codec.
 		if si.Codec != w.codec.ID() {
-			return nil, fmt.Errorf("segment with BasedIndex=%d uses an unknown codec", si.BaseIndex)
+			return fail(fmt.Errorf("segment with BasedIndex=%d uses an unknown codec", si.BaseIndex))
 		}
 
 		// We want to keep this segment since it's still in the metaDB list!
@@ -138,7 +150,7 @@ func Open(dir string, opts ...walOpt) (*WAL, error) {
 		if si.SealTime.IsZero() {
 			// This is an unsealed segment. It _must_ be the last one. Safety check!
 			if i < len(persisted.Segments)-1 {
-				return nil, fmt.Errorf("unsealed segment is not at tail")
+				return fail(fmt.Errorf("unsealed segment is not at tail"))
 			}
 
 			// Try to recover this segment
@@ -155,8 +167,9 @@ func Open(dir string, opts ...walOpt) (*WAL, error) {
 				sw, err = w.sf.Create(si)
 			}
 			if err != nil {
-				return nil, err
+				return fail(err)
 			}
+			opened = append(opened, sw)
 			// Set the tail and "reader" for this segment
 			ss := segmentState{
 				SegmentInfo: si,
@@ -176,8 +189,9 @@ func Open(dir string, opts ...walOpt) (*WAL, error) {
 		// Open segment reader
 		sr, err := w.sf.Open(si)
 		if err != nil {
-			return nil, err
+			return fail(err)
 		}
+		opened = append(opened, sr)
 
 		// Store the open reader to get logs from
 		ss := segmentState{
@@ -206,14 +220,15 @@ func Open(dir string, opts ...walOpt) (*WAL, error) {
 		// Persist the new meta to "commit" it even before we create the file so we
 		// don't attempt to recreate files with duplicate IDs on a later failure.
 		if err := w.metaDB.CommitState(newState.Persistent()); err != nil {
-			return nil, err
+			return fail(err)
 		}
 
 		// Create the new segment file
 		w, err := w.sf.Create(si)
 		if err != nil {
-			return nil, err
+			return fail(err)
 		}
+		opened = append(opened, w)
 		newState.tail = w
 		// Update the segment in memory so we have a reader for the new segment. We
 		// don't need to commit again as this isn't changing the persisted metadata
@@ -234,14 +249,14 @@ func Open(dir string, opts ...walOpt) (*WAL, error) {
 		// would fail with ErrSealed forever.
 		sealed, indexStart, err := newState.tail.Sealed()
 		if err != nil {
-			return nil, err
+			return fail(err)
 		}
 		if sealed {
 			w.writeMu.Lock()
 			err := w.rotateSegmentLocked(indexStart)
 			w.writeMu.Unlock()
 			if err != nil {
-				return nil, err
+				return fail(err)
 			}
 		}
 	}
